@@ -1,9 +1,16 @@
 """C03: scope/task configurations of USim, witnesses replayed on the real code, verdict by ObsC03."""
 import scopedom
+import usimrun
 
 OBS = 'ObsC03'
 LABELS = {'quick': 'abort nested cancel until cancel_close until_time'.split(), 'thorough': 'abort nested cancel until cancel_close until_time'.split()}
+LIVE = {'quick': ['abort'], 'thorough': ['abort', 'cancel', 'until', 'graceful']}
 
 
 def run(check):
-    scopedom.run(check, OBS, LABELS[check.tier], conform=True)
+    # design level, liveness: under weak fairness every behaviour of the bounded kernel model reaches quiescence
+    # (no livelock in the design); safety invariants are checked in the witness runs below
+    for label in LIVE[check.tier]:
+        check.model_check('live_' + label, 'USimProps', 'FairSpec', scopedom.CONFIGS[label], [], properties=['Termination'],
+                          coverage=False)
+    runs = scopedom.run(check, OBS, LABELS[check.tier], conform=True)
